@@ -272,6 +272,9 @@ def judge(sim, stats, want, acc, kind, label, cuts, settings, cb, stream, undel,
         return
     if got == want:
         acc.count("messages_delivered_and_compared", len(got))
+        if len(cuts) in (1, 5, 7) or label.startswith("long"):
+            acc.sample({"client": kind, "segmentation": label, "cuts": cuts[:12], "stream_bytes": len(stream), "stream_head_hex": stream[:48].hex(),
+                        "undeliverable_packets": undel, "delivered": len(got), "delivered_pgns": [g[0] for g in got][:12], "callback": cb}, cap=6)
         return
     if len(got) < len(want) and got == want[:len(got)]:
         key = "later-messages-not-delivered"
